@@ -204,7 +204,7 @@ func (s *Solver) CheckSatT(ms int) string {
 		s.Checks++
 		d := time.Since(t0)
 		s.Time += d
-		if d > time.Second && os.Getenv("GVC_SLOW") != "" {
+		if d > 250*time.Millisecond && os.Getenv("GVC_SLOW") != "" {
 			top := s.stack[len(s.stack)-1]
 			last := ""
 			if len(top) > 0 {
@@ -242,9 +242,13 @@ func (s *Solver) CheckSatT(ms int) string {
 // CheckGoal: is `goal` valid under the current stack?  Returns "unsat" when
 // proved, "sat" with model values for the requested terms, or "unknown".
 func (s *Solver) CheckGoal(goal *Term, want []string) (string, map[string]string) {
+	return s.CheckGoalT(goal, want, s.timeout)
+}
+
+func (s *Solver) CheckGoalT(goal *Term, want []string, ms int) (string, map[string]string) {
 	s.Push()
 	s.Assert(Not(goal))
-	r := s.CheckSat()
+	r := s.CheckSatT(ms)
 	var m map[string]string
 	if r == "sat" && len(want) > 0 {
 		m = s.GetValues(want)
